@@ -140,6 +140,7 @@ func exerciseEnvelope(env *gobl.Envelope, o *vh.Obs) {
 	// verification of whatever signatures came with the input
 	structured(o, "Verify", env.Verify(signKey.Public()))
 	structured(o, "Verify(no keys)", env.Verify())
+	structured(o, "Verify(empty key)", env.Verify(new(dsig.PublicKey)))
 	for _, s := range env.Signatures {
 		structured(o, "VerifySignature", env.VerifySignature(s, signKey.Public()))
 	}
@@ -150,6 +151,7 @@ func exerciseEnvelope(env *gobl.Envelope, o *vh.Obs) {
 	if err == nil {
 		o.Class("signed")
 		structured(o, "Verify(after sign)", env.Verify(signKey.Public()))
+		structured(o, "Verify(empty key, after sign)", env.Verify(new(dsig.PublicKey)))
 	}
 	if env.Head != nil {
 		// nothing handed over is nothing added (and nothing to crash on)
